@@ -93,6 +93,28 @@ def overlapped_close_scripts(rng, n):
     return out
 
 
+def close_during_completion_scripts(rng, n):
+    """one close request arriving while a step that ended WITHOUT running (deployment failed / disabled / crashed) is
+    still delivering its completion and "stage impossible" notifications through a slow handler: the close may only
+    return when the last of them has been delivered"""
+    out = []
+    for k in range(n):
+        ending = ['deployfail', 'disabled', 'crash'][k % 3]
+        handler = k % 2 == 0
+        acts = [{'op': 'provide', 'stage': 'deploy', 'lane': 0}]
+        if ending != 'deployfail':
+            acts.append({'op': 'provide', 'stage': 'enabling', 'val': ending != 'disabled', 'lane': 0})
+        if ending == 'crash':
+            acts.append({'op': 'provide', 'stage': 'starting', 'lane': 0})
+        acts.append({'op': 'sleep', 'ms': rng.choice([8, 15, 25, 40]), 'lane': 1})
+        acts.append({'op': rng.choice(['close', 'close', 'forceclose']), 'id': 'c1', 'lane': 1})
+        script = {'a': {'deploy': {'fail': ending == 'deployfail'}, 'exec': {'out': 'success', 'crash': ending == 'crash', 'delay_ms': 1}}}
+        sc = {'pstep': 'work' if handler else 'nowork', 'src': 'a', 'script': script, 'actions': acts, 'overlap': True, 'timeout_ms': 20000,
+              'schedule': {'stalls': [{'point': 'ev:Notif', 'nth': 0, 'ms': rng.choice([6, 10, 15])}]}}
+        out.append((sc, handler))
+    return out
+
+
 def run_step(binary, sc, work, name):
     d = os.path.join(work, name)
     os.makedirs(d, exist_ok=True)
@@ -187,7 +209,7 @@ def run(ctx):
     rng = random.Random(ctx.seed * 104729 + 12)
     binary = ctx.binary()
     n = 40 if ctx.quick else 600
-    scs = [gen_script(rng, overlap=(i % 3 == 2)) for i in range(n)] + overlapped_close_scripts(rng, 8 if ctx.quick else 80)
+    scs = [gen_script(rng, overlap=(i % 3 == 2)) for i in range(n)] + overlapped_close_scripts(rng, 8 if ctx.quick else 80) + close_during_completion_scripts(rng, 12 if ctx.quick else 90)
     with cf.ThreadPoolExecutor(max_workers=max(2, vlib.NCPU - 2)) as ex:
         results = list(ex.map(lambda a: run_step(binary, a[1][0], ctx.work, 'st%04d' % a[0]), enumerate(scs)))
     cases = []
